@@ -22,14 +22,15 @@ VARIABLES work,     \* the tree being evaluated (Config evaluates a deep copy of
           calls,    \* the call log: what was invoked, in order, with which argument ids
           evlog,    \* every evaluate_node(<node>, path) call, in order (hits included)
           reqsafe,  \* EvalContext._require_all_safe
+          taint,    \* cached paths whose value was produced with the help of an unsafe node (_eval_unsafe)
           status    \* "idle" | "running" | "done" | "EvalError" | "UnsafeError"
 
-evars == <<work, stack, cache, heap, calls, evlog, reqsafe, status>>
+evars == <<work, stack, cache, heap, calls, evlog, reqsafe, taint, status>>
 
 NoTree == MkNode("nothing", NoVal, <<>>)
 
 EInit == /\ work = NoTree /\ stack = <<>> /\ cache = <<>> /\ heap = <<>> /\ calls = <<>>
-         /\ evlog = <<>> /\ reqsafe = FALSE /\ status = "idle"
+         /\ evlog = <<>> /\ reqsafe = FALSE /\ taint = {} /\ status = "idle"
 
 \* value records
 VBunch(ch)     == [k |-> "bunch", v |-> NoVal, ch |-> ch, by |-> <<>>]
@@ -38,7 +39,7 @@ VAtom(a)       == [k |-> "atom", v |-> a, ch |-> <<>>, by |-> <<>>]
 VObj(p, ch)    == [k |-> "obj", v |-> NoVal, ch |-> ch, by |-> p]         \* what a !call returned
 VPartial(p, ch) == [k |-> "partial", v |-> NoVal, ch |-> ch, by |-> p]    \* what a !bind evaluates to
 
-Frame(p, node) == [p |-> p, i |-> 1, ids |-> <<>>, cur |-> node.ref, chain |-> <<p>>, wait |-> FALSE, rs |-> FALSE]
+Frame(p, node) == [p |-> p, i |-> 1, ids |-> <<>>, cur |-> node.ref, chain |-> <<p>>, wait |-> FALSE, rs |-> FALSE, u |-> FALSE]
 
 Top == stack[Len(stack)]
 Pop == SubSeq(stack, 1, Len(stack) - 1)
@@ -47,6 +48,17 @@ OnStack(p) == \E j \in 1..Len(stack) : stack[j].p = p
 Cached(p) == p \in DOMAIN cache
 PutCache(p, id) == [q \in DOMAIN cache \cup {p} |-> IF q = p THEN id ELSE cache[q]]
 NewId == Len(heap) + 1
+\* eval_context.py: _eval_unsafe_uses grows whenever an unsafe node is evaluated or a tainted cached value is used again;
+\* a node whose evaluation saw it grow is tainted itself.  Here: frame field u, handed to the enclosing frame on return.
+\* (Mutation NoTaint: the code before the fix - a cached value is handed out whatever it was made from.)
+Tainted(p) == p \in taint /\ ~Mut("NoTaint")
+TopTainted == Top.u \/ ~EffSafe(At(work, Top.p))
+\* hand value id (and whether it is tainted) to the frame on top of st1
+Return(st1, id, t) ==
+    LET f == st1[Len(st1)]
+    IN IF At(work, f.p).k = "xref"
+       THEN [st1 EXCEPT ![Len(st1)] = [f EXCEPT !.ids = <<id>>, !.u = @ \/ t]]
+       ELSE [st1 EXCEPT ![Len(st1)] = [f EXCEPT !.ids = Append(@, id), !.i = @ + 1, !.u = @ \/ t]]
 
 \* config.py:41: `pre_evaluate = copy.deepcopy(config_dict)`.  copy._reconstruct restores the state of a container
 \* and then attaches the (already copied) children through the normal mutators (composed.py:360-368): every child is
@@ -64,11 +76,11 @@ StartOn(t) ==
     /\ status = "idle"
     /\ work' = t /\ status' = "running"
     /\ stack' = <<Frame(<<>>, t)>>
-    /\ UNCHANGED <<cache, heap, calls, evlog, reqsafe>>
+    /\ UNCHANGED <<cache, heap, calls, evlog, reqsafe, taint>>
 \* Config.__init__: evaluate a deep copy of the merged tree
 Start(t) == StartOn(DeepCopy(t))
 
-Fail(kind) == /\ status' = kind /\ UNCHANGED <<work, stack, cache, heap, calls, evlog, reqsafe>>
+Fail(kind) == /\ status' = kind /\ UNCHANGED <<work, stack, cache, heap, calls, evlog, reqsafe, taint>>
 
 \* finishing the top frame with value record val: allocate, cache, pop, hand over
 Finish(val, extraCalls) ==
@@ -79,12 +91,10 @@ Finish(val, extraCalls) ==
     IN /\ heap' = Append(heap, val)
        /\ cache' = c1
        /\ calls' = calls \o extraCalls
+       /\ taint' = IF TopTainted THEN taint \cup {p} ELSE taint
        /\ IF st1 = <<>> THEN /\ stack' = st1 /\ status' = "done"
           ELSE /\ status' = status
-               /\ LET f == st1[Len(st1)]
-                  IN stack' = IF At(work, f.p).k = "xref"
-                              THEN [st1 EXCEPT ![Len(st1)] = [f EXCEPT !.ids = <<id>>]]
-                              ELSE [st1 EXCEPT ![Len(st1)] = [f EXCEPT !.ids = Append(@, id), !.i = @ + 1]]
+               /\ stack' = Return(st1, id, TopTainted)
        /\ UNCHANGED <<work, evlog>>
 
 Running == status = "running" /\ stack # <<>>
@@ -105,7 +115,7 @@ FnGate ==
     /\ IF ~EffSafe(TopNode) /\ ~Mut("NoFnGate") THEN Fail("UnsafeError")
        ELSE /\ stack' = SetTop([Top EXCEPT !.wait = TRUE, !.rs = reqsafe])   \* `with ctx.require_all_safe(...)`
             /\ reqsafe' = ~Mut("NoArgGate")
-            /\ UNCHANGED <<work, cache, heap, calls, evlog, status>>
+            /\ UNCHANGED <<work, cache, heap, calls, evlog, taint, status>>
 
 ChildReady == Running /\ IsComposed(TopNode) /\ (IsFn(TopNode) => Top.wait) /\ Top.i <= Len(TopNode.ch)
 ChildPath == Append(Top.p, TopNode.ch[Top.i][1])
@@ -115,10 +125,13 @@ ChildNode == TopNode.ch[Top.i][2]
 EnterChild ==
     /\ ChildReady
     /\ evlog' = Append(evlog, ChildPath)
+    /\ UNCHANGED taint
     /\ IF reqsafe /\ ~EffSafe(ChildNode) THEN /\ status' = "UnsafeError" /\ UNCHANGED <<work, stack, cache, heap, calls, reqsafe>>
        ELSE IF Cached(ChildPath) /\ ~Mut("NoIdCache")
-       THEN /\ stack' = SetTop([Top EXCEPT !.ids = Append(@, cache[ChildPath]), !.i = @ + 1])
-            /\ UNCHANGED <<work, cache, heap, calls, reqsafe, status>>
+       THEN IF reqsafe /\ Tainted(ChildPath)          \* _reuse_evaluated
+            THEN /\ status' = "UnsafeError" /\ UNCHANGED <<work, stack, cache, heap, calls, reqsafe>>
+            ELSE /\ stack' = SetTop([Top EXCEPT !.ids = Append(@, cache[ChildPath]), !.i = @ + 1, !.u = @ \/ Tainted(ChildPath)])
+                 /\ UNCHANGED <<work, cache, heap, calls, reqsafe, status>>
        ELSE /\ stack' = Append(stack, Frame(ChildPath, ChildNode))
             /\ UNCHANGED <<work, cache, heap, calls, reqsafe, status>>
 
@@ -142,15 +155,16 @@ XRefReady == Running /\ TopNode.k = "xref" /\ Top.ids = <<>> /\ ~Top.wait
 \* the target has already been evaluated: get_node returns the VALUE, the reference aliases it
 XRefAlias ==
     /\ XRefReady /\ Cached(Top.cur)
-    /\ LET id == cache[Top.cur] IN
-       /\ cache' = PutCache(Top.p, id)
-       /\ LET st1 == Pop IN
-          IF st1 = <<>> THEN stack' = st1 /\ status' = "done"
-          ELSE /\ status' = status
-               /\ LET f == st1[Len(st1)]
-                  IN stack' = IF At(work, f.p).k = "xref"
-                              THEN [st1 EXCEPT ![Len(st1)] = [f EXCEPT !.ids = <<id>>]]
-                              ELSE [st1 EXCEPT ![Len(st1)] = [f EXCEPT !.ids = Append(@, id), !.i = @ + 1]]
+    /\ IF reqsafe /\ Tainted(Top.cur)                 \* get_node: _reuse_evaluated
+       THEN /\ status' = "UnsafeError" /\ UNCHANGED <<stack, cache, taint>>
+       ELSE LET id == cache[Top.cur]
+                t  == TopTainted \/ Tainted(Top.cur) IN
+            /\ cache' = PutCache(Top.p, id)
+            /\ taint' = IF t THEN taint \cup {Top.p} ELSE taint
+            /\ LET st1 == Pop IN
+               IF st1 = <<>> THEN stack' = st1 /\ status' = "done"
+               ELSE /\ status' = status
+                    /\ stack' = Return(st1, id, t)
     /\ UNCHANGED <<work, heap, calls, evlog, reqsafe>>
 
 XRefMissing ==
@@ -166,7 +180,7 @@ XRefFollow ==
        ELSE \* (the pre-fix code kept the chain only for its error messages: it is not state there,
             \*  so that a reference cycle is a finite lasso TLC's liveness check can exhibit)
             /\ stack' = SetTop([Top EXCEPT !.chain = IF NoCycleCheck THEN @ ELSE Append(@, Top.cur), !.cur = At(work, Top.cur).ref])
-            /\ UNCHANGED <<work, cache, heap, calls, evlog, reqsafe, status>>
+            /\ UNCHANGED <<work, cache, heap, calls, evlog, reqsafe, taint, status>>
 
 \* the target is an ordinary node: evaluate it (under its own path) and take its value.
 \* A target that is being evaluated right now (an ancestor) recurses without end in the
@@ -174,7 +188,7 @@ XRefFollow ==
 XRefEnter ==
     /\ XRefReady /\ ~Cached(Top.cur) /\ Top.cur # <<>> /\ HasPath(work, Top.cur)
     /\ At(work, Top.cur).k # "xref"
-    /\ evlog' = Append(evlog, Top.cur)
+    /\ evlog' = Append(evlog, Top.cur) /\ UNCHANGED taint
     /\ IF reqsafe /\ ~EffSafe(At(work, Top.cur)) THEN /\ status' = "UnsafeError" /\ UNCHANGED <<work, stack, cache, heap, calls, reqsafe>>
        ELSE IF OnStack(Top.cur) THEN /\ status' = "EvalError" /\ UNCHANGED <<work, stack, cache, heap, calls, reqsafe>>
        ELSE /\ stack' = Append(SetTop([Top EXCEPT !.wait = TRUE]), Frame(Top.cur, At(work, Top.cur)))
@@ -185,13 +199,11 @@ XRefTaken ==
     /\ Running /\ TopNode.k = "xref" /\ Top.ids # <<>>
     /\ LET id == Top.ids[1] IN
        /\ cache' = PutCache(Top.p, IF Mut("CopyOnXRef") THEN 0 ELSE id)
+       /\ taint' = IF TopTainted THEN taint \cup {Top.p} ELSE taint
        /\ LET st1 == Pop IN
           IF st1 = <<>> THEN stack' = st1 /\ status' = "done"
           ELSE /\ status' = status
-               /\ LET f == st1[Len(st1)]
-                  IN stack' = IF At(work, f.p).k = "xref"
-                              THEN [st1 EXCEPT ![Len(st1)] = [f EXCEPT !.ids = <<id>>]]
-                              ELSE [st1 EXCEPT ![Len(st1)] = [f EXCEPT !.ids = Append(@, id), !.i = @ + 1]]
+               /\ stack' = Return(st1, id, TopTainted)
     /\ UNCHANGED <<work, heap, calls, evlog, reqsafe>>
 
 \* ---- other dynamic leaves (!eval, f-strings, !import, !path): opaque here ------
